@@ -283,9 +283,11 @@ class RefServer:
             return self.st(b"OK")
         if verb == "LISTSCRIPTS" and not args:
             out = b""
+            self.last_listing_literals = []
             for name in self.scripts:
                 if self.choice.literal_names and self.r.random() < 0.5:
                     enc = literal(name)
+                    self.last_listing_literals.append(name)
                 else:
                     enc = quote(name) if can_quote(name) else literal(name)
                 out += enc + (b" ACTIVE" if name == self.active else b"") + b"\r\n"
